@@ -7,7 +7,7 @@ GOOD_PRAGMAS = ["#version gdc-1.0.0", "#annotation.spec gdc-1.0.0-public", "#ann
                 "#sort.order Unsorted", "#sort.order Unknown", "#contigs chr1,chr2,chr10", "#contigs 1,2,10,X",
                 "#center broad.mit.edu", "#note made by the harness", "#n.samples 4", "#filedate 2020-01-01 ",
                 "#version gdc-2.0.0", "#version no-version", "#annotation.spec no-annotation-specification",
-                "#annotation.spec nothing-known", "#sort.order Bogus", "#contigs ", "#contigs a", "#k v w  x",
+                "#annotation.spec nothing-known", "#sort.order Bogus", "#contigs ", "#contigs a", "#contigs chr1,chr2,", "#contigs ,1,2", "#contigs 1,,2", "#contigs ,", "#k v w  x",
                 "#key value\t", "#key \tvalue", "#tab\tkey value", "#unicode Ünï", "#key value ",
                 # a key may itself start with the line symbol (VCF-style double hash): only ONE symbol starts the line
                 "##source caller-x", "##version gdc-1.0.0", "##contigs a,b", "##sort.order Coordinate", "###three hashes", "##center x"]
@@ -212,16 +212,26 @@ def consume(reader, style, each):
     "iter" = explicit iter(reader) then next() on it, "next" = next(reader) on the reader itself, "method" / "iter-method" =
     the .next() method of the reader / of iter(reader)."""
     if style == "for":
-        for rec in reader:
+        it = iter(reader)
+        for rec in it:
             each(rec)
-        return
-    it = iter(reader) if style in ("iter", "iter-method") else reader
-    step = it.next if style in ("method", "iter-method") else (lambda: next(it))
-    while True:
+        step = lambda: next(it)    # noqa
+    else:
+        it = iter(reader) if style in ("iter", "iter-method") else reader
+        step = it.next if style in ("method", "iter-method") else (lambda: next(it))
+        while True:
+            try:
+                rec = step()
+            except StopIteration:
+                break
+            each(rec)
+    # asking again after the end is still iterating: the answer is StopIteration again (anything else propagates to the
+    # caller like any other failure of the iteration; a record handed out now is one record too many)
+    for _ in range(2):
         try:
             rec = step()
         except StopIteration:
-            break
+            continue
         each(rec)
 
 
